@@ -155,7 +155,7 @@ def run_task(prog, tid, params, tier):
         if r.var == 'Ok':
             covers['ok'] += 1
             if ref[0] != 'ok':
-                return cex(res, 'Name::parse accepts a name the RFC 1035 decoder rejects', {'outcome': 'err'})
+                return cex(res, 'Name::parse accepts a name the RFC 1035 decoder rejects', {'outcome': 'ok'})
             mine = label_views(I, r.f[0])
             theirs = ref[1]
             if len(mine) != len(theirs):
@@ -188,8 +188,7 @@ def run_task(prog, tid, params, tier):
                 bs = X.model_bytes(m, syms)
                 ev = lambda sc: m.eval(sc.z(), model_completion=True).as_long()
                 ref_labels = [''.join('%02x' % b for b in bs[ev(s):ev(s) + ev(l)]) for s, l in ref[1]]
-                return cex(res, 'Name::parse rejects a name the RFC 1035 decoder accepts',
-                           {'differs': {'outcome': 'err'}})
+                return cex(res, 'Name::parse rejects a name the RFC 1035 decoder accepts', {'outcome': 'err'})
         return None
 
     v = X.explore(prog, run, on_path, loop_bound=N, stats=stats, timeout_ms=60000)
